@@ -28,17 +28,16 @@ LEVEL_TEXT = ("Theorems for all statement lists of an abstract statement languag
               "type-guard flag is an inherited attribute true only in the body of a module/class-level `if TYPE_CHECKING`; at module level and for "
               "every class statement at any depth the member names are exactly the bound names in first-binding order and kind / first line / runtime "
               "flag are those of the binding surviving Griffe's tie-break (later wins, conditional attribute re-assignment kept out); the extension "
-              "trace is well bracketed with parents first; griffe.visit raises iff an @overload def sits directly in a class's __init__ (finding F1, "
-              "witness + exact characterisation); the visibility ladders regenerated from mixins.py equal the documented table on all 15360 inputs "
-              "modulo F4 (empty __all__) and F5 (parentless object raises). Model tied to the code on every run by differential runs on generated "
+              "trace is well bracketed with parents first; no statement list makes the visitor raise; the visibility ladders regenerated from "
+              "mixins.py equal the documented table on all 15360 inputs (findings F1-F5, F7 repaired; F6, overload-only names have no member, stays "
+              "known with a computed witness). Model tied to the code on every run by differential runs on generated "
               "modules (tree, spans, labels, docstrings, flags, imports, exports, event trace) plus direct checks against CPython's ast/exec.")
 LEVEL_NOTE = ("Trusted: Coq kernel, extraction, translator harness/translate/c01_tables.py, the harness abstraction ast -> stmt (resolves decorator "
               "heads and ClassVar through module-level imports, computes import paths for a parentless module and __all__ items), CPython ast/exec "
               "as authority. Modelled, not verified: expression contents (C03), overload buffer / setter attachment (C02; only their effect on "
               "membership and labels is kept), annotation forwarding, members of functions (discarded by the model, not compared). The surviving-kind "
-              "theorems exclude accessor decorators (x.setter: C02). Label and docstring content has no theorem beyond the witnesses of F2/F3; it is "
-              "covered by correspondence and direct checks only. Finding F7 (KeyError in get_base_property through an enclosing alias) is outside the "
-              "model: the generators do not produce its trigger and it is classified by a harness-side predicate. Source text <-> ast positions are CPython's.")
+              "theorems exclude accessor decorators (x.setter: C02). Label and docstring content has no theorem; it is "
+              "covered by correspondence and direct checks only. Source text <-> ast positions are CPython's.")
 MODEL = ("Model.C01_visitor", "run_C01")
 COQ_TARGETS = ["Proofs/C01_visitor.vo", "Proofs/C01_vis.vo"]
 RULE = ("seeded random structural modules (nesting <=4; name pool of 11 (incl. _t__, z__) with forced duplicates; decorators from the label tables, overload, "
@@ -1585,7 +1584,6 @@ def gen_total_case(rng):
 # known findings: witnesses (replayed on the implementation on every run) and classifiers
 # =====================================================================================================================
 WITNESS = {
-    "C01-F4": "__all__ = []\ndef f(): ...\n",
     "C01-F6": "from typing import overload\n@overload\ndef f(a: int) -> int: ...\n@overload\ndef f(a: str) -> str: ...\n",
 }
 
@@ -1596,8 +1594,6 @@ def replay_witnesses(ctx):
 
     def visit(src):
         return griffe.visit("m", filepath=p, code=src)
-    m = visit(WITNESS["C01-F4"])
-    ctx.witness("C01-F4", m["f"].is_public is True and m["f"].is_wildcard_exposed is False)
     m = visit(WITNESS["C01-F6"])
     ctx.witness("C01-F6", "f" not in m.members)
 
@@ -1735,7 +1731,7 @@ def check_visibility(ctx, items):
     """items: (vin, real predicate values, case, path)."""
     outs = ctx.model([["vis", v] for v, _r, _c, _p in items])
     for (v, real, case, path), out in zip(items, outs):
-        gen, doc, consistent, gap_empty = out
+        gen, doc, consistent = out
         ctx.count("visibility_inputs")
         ctx.observe("vis_parent", "none" if not v[6] else "module" if v[7] else "class" if v[8] else "other")
         if not consistent:
@@ -1747,8 +1743,6 @@ def check_visibility(ctx, items):
         for name, r, d in zip(PREDICATES, real, doc):
             if r == "raises" or bool(r) != bool(d):
                 finding = None
-                if name == "is_public" and gap_empty:
-                    finding = "C01-F4"
                 ctx.observe("direct_fail", "visibility:" + name + ("" if finding is None else ":" + finding))
                 ctx.property_failure(dict(case, path=path, predicate=name), f"{name} of {path} is {r}, documented table says {bool(d)}", finding)
 
